@@ -407,6 +407,11 @@ fn gen_xy(src: &mut Src, o: &GdsGenOpts, big: &mut bool) -> Vec<(i32, i32)> {
     }
     let n = src.weighted(&[1, 1, 2, 2, 3, 3, 2, 1, 1, 1, 1, 1, 1]);
     let mut v: Vec<(i32, i32)> = (0..n).map(|_| gen_pt(src)).collect();
+    // an outline that passes through its first point again part of the way (two loops sharing a corner)
+    if n >= 3 && src.prob(1, 10) {
+        let at = 1 + src.index(n - 1);
+        v.insert(at, v[0]);
+    }
     // an outline that ends on its first point (boundaries are stored closed)
     if n >= 2 && src.prob(1, 5) {
         v.push(v[0]);
@@ -576,13 +581,27 @@ pub fn gen_lib(src: &mut Src, o: &GdsGenOpts) -> (MLib, bool) {
             let e = elems[i].clone();
             elems.insert(j, e);
         }
+        let mut last_ref: Option<String> = None;
         for e in elems.iter_mut() {
             if let MElem::Sref { name: n, .. } | MElem::Aref { name: n, .. } = e {
-                match src.weighted(&[2, 1, 1]) {
+                match src.weighted(&[4, 2, 2, 1]) {
                     1 if !structs.is_empty() => *n = structs[src.index(structs.len())].name.clone(),
                     2 => *n = sname.clone(),
+                    // the previous reference's name plus one character, or minus one (`nand2` after `nand2x`)
+                    3 => {
+                        if let Some(p) = last_ref.as_ref().filter(|p| p.len() < 1000) {
+                            if src.bool() || p.is_empty() {
+                                *n = format!("{}{}", p, (b'a' + src.below(26) as u8) as char);
+                            } else {
+                                let mut q = p.clone();
+                                q.pop();
+                                *n = q;
+                            }
+                        }
+                    }
                     _ => {}
                 }
+                last_ref = Some(n.clone());
             }
         }
         structs.push(MStruct { name: sname, dates: sdates, elems });
